@@ -48,7 +48,7 @@ PROPERTY_RULES: Dict[str, List[str]] = {
     "C14": ["R14", "R23/feature", "R11/conn", "R11/raw", "R11/local"],
     "C15": ["R23", "R3/P3b"],
     "C16": ["R1/O2", "R2/INFLIGHT", "R2/anc", "R2/own", "R1/O4", "R20/async", "R20/connect", "R20/writers", "R10/gate", "R10/set_data", "R10/get_data", "R17/take", "R17/memory", "R17/writeback", "R3/P1"],
-    "C17": ["R3/INIT", "R11/schedule", "R11/sched-value", "R8", "R2/rt", "R4/wait", "R10/set_event", "R10/run", "R10/rt_check", "R10/R18", "R1/O5c", "R1/O5d", "R1/O5e", "R4/dedup", "R4/wake"],
+    "C17": ["R3/INIT", "R11/schedule", "R11/sched-value", "R8", "R2/rt", "R4/wait", "R10/set_event", "R10/run", "R10/rt_check", "R10/R18", "R1/O5c", "R1/O5d", "R1/O5e", "R4/dedup", "R4/wake", "R2/anc", "R2/INFLIGHT", "R2/own"],
     "C18": ["R24"],
 }
 
@@ -88,7 +88,7 @@ CLAIMS: Dict[str, Tuple[str, str]] = {
             "'sees the same scheduling and data as a current-version simulator' (behaviour)"),
     "C16": ("the producer waits unconditionally for its async consumers, set_data/get_data are gated by _assert_async_requests (ScenarioError for both missing-connection cases) before any access, set_data inputs are consumed exactly once (take and clear), connect_async_requests fills successors, successors_to_wait_for and input_delays; the producer's bound sees the step in flight until its outputs are fetched; wait_for_dependencies dominates the pop of every step (no fast path around the wait for the async-request partners)",
             "the ordering clause over executions"),
-    "C17": ("set_event decision table (error outside real-time mode before any effect, schedule iff < until else warn, lifted to the simulator's tiers), rt_factor validated and scaled by time_resolution before it is stored, real-time progress term, polling wait with timeout=rt_factor, rt_check table (RuntimeError iff rt_strict), rt_strict confined, rt_start exists before any process runs and is read off the clock when the processes are created; a self-step is pushed onto the heap of pending steps (pending external events survive), the world's until / rt_factor exist before run() first suspends; the real-time term is ceil((perf_counter() - rt_start) / rt_factor): rounded up, not down; set_event reaches the simulator through schedule_step, which creates the step unless that very time is already pending (a step in flight at the same time does not count) and wakes a waiting simulator iff the new step is earlier",
+    "C17": ("set_event decision table (error outside real-time mode before any effect, schedule iff < until else warn, lifted to the simulator's tiers), rt_factor validated and scaled by time_resolution before it is stored, real-time progress term, polling wait with timeout=rt_factor, rt_check table (RuntimeError iff rt_strict), rt_strict confined, rt_start exists before any process runs and is read off the clock when the processes are created; a self-step is pushed onto the heap of pending steps (pending external events survive), the world's until / rt_factor exist before run() first suspends; the real-time term is ceil((perf_counter() - rt_start) / rt_factor): rounded up, not down; set_event reaches the simulator through schedule_step, which creates the step unless that very time is already pending (a step in flight at the same time does not count) and wakes a waiting simulator iff the new step is earlier; the progress bound that the real-time poll re-computes sees the steps in flight of the triggering ancestors and the simulator's own pending steps",
             "every wall-clock clause (timing is a runtime quantity)"),
     "C18": ("returned set == set of destinations passed to connect (same loop nest, same conditions, over every return), exactly one connect per source in connect_many_to_one and on every path of _connect_randomly, chunk stride == window width in _connect_evenly, per-destination bookkeeping (count from 0, ++, removal iff count >= max_connects) on every path whose guard does not bound the number of sources by max_connects, entities are distinct set members / dict keys (identity or unique-id equality); a request is refused up front iff len(src_set) > len(dest_set) * max_connects, no container default is changed from call to call",
             "the numeric clauses (difference <= 1 over all random draws; D6)"),
